@@ -25,6 +25,7 @@ type vConn struct {
 	dead    bool // a send failed: the connection is gone
 	faults  bool // may sends fail?
 	timeout time.Duration
+	limit   int64
 	encode  bool // run the real Len/Encode on every sent packet
 	encodeErrors int
 	onSend  func(pkt packet.Generic) // monitor, called with the lock held after a successful send
@@ -108,7 +109,7 @@ func (c *vConn) sentAt(i int) packet.Generic {
 	return c.sent[i]
 }
 
-func (c *vConn) SetReadLimit(limit int64)              {}
+func (c *vConn) SetReadLimit(limit int64)              { c.limit = limit }
 func (c *vConn) SetReadTimeout(timeout time.Duration)  { c.timeout = timeout }
 func (c *vConn) SetMaxWriteDelay(delay time.Duration)  {}
 func (c *vConn) LocalAddr() net.Addr                   { return nil }
